@@ -112,7 +112,10 @@ class MachineModel:
             placement = list(range(circuit.num_qudits))
 
         if any(
-            (placement[e[0]], placement[e[1]]) not in self.coupling_graph
+            (
+                min(placement[e[0]], placement[e[1]]),
+                max(placement[e[0]], placement[e[1]]),
+            ) not in self.coupling_graph
             for e in circuit.coupling_graph
         ):
             return False
